@@ -4,7 +4,9 @@ CONSTANTS
   SemSize = 2
   Kind = "base"
   MayFail = {1, 2, 3}
+  EndOrder = "cancel-release"
+  AcquireAnswer = "cause"
   ParentMay = TRUE
-INVARIANTS TypeOK WaitNilAfterAll NoAcceptAfterDone
+INVARIANTS TypeOK WaitNilAfterAll WaitNilNoFailure SlotFreeOnlyAfterCancel NoAcceptAfterFailure NoAcceptAfterDone RunReturnsFirstError
 PROPERTIES AcceptedEnds DriverReturns
 CHECK_DEADLOCK FALSE
